@@ -800,7 +800,54 @@ impl<'c, 's, 'ast> Visit<'ast> for FnVisitor<'c, 's> {
     fn visit_item(&mut self, _i: &'ast syn::Item) {}
 }
 
+/// R18 (pre-pass, source to source): `for P in A.chain(B) BODY` -> `for P in A BODY for P in B BODY`
+/// (Verus has no model of iter::Chain).  The duplicate is put on the closing line so line numbers are preserved.
+struct ChainFinder { found: Vec<(usize, usize, usize, usize, usize, usize, usize, usize)> }
+impl<'ast> Visit<'ast> for ChainFinder {
+    fn visit_expr_for_loop(&mut self, f: &'ast syn::ExprForLoop) {
+        if let syn::Expr::MethodCall(mc) = &*f.expr {
+            if mc.method == "chain" && mc.args.len() == 1 {
+                let (ps, pe) = br(f.pat.span());
+                let (_, re) = br(mc.receiver.span());
+                let (_, me) = br(mc.span());
+                let (as_, ae) = br(mc.args[0].span());
+                let (bs, be) = br(f.body.span());
+                self.found.push((ps, pe, re, me, as_, ae, bs, be));
+            }
+        }
+        visit::visit_expr_for_loop(self, f);
+    }
+}
+fn strip_comments_one_line(t: &str) -> String {
+    let mut out = String::new();
+    for line in t.lines() {
+        let l = match line.find("//") { Some(i) => &line[..i], None => line };
+        out.push_str(l.trim());
+        out.push(' ');
+    }
+    out
+}
+fn prepass(src: &str) -> String {
+    let file = match syn::parse_file(src) { Ok(f) => f, Err(_) => return src.to_string() };
+    let mut cf = ChainFinder { found: Vec::new() };
+    cf.visit_file(&file);
+    let mut out = src.to_string();
+    cf.found.sort_by(|a, b| b.7.cmp(&a.7));
+    for (ps, pe, re, me, as_, ae, bs, be) in cf.found {
+        let dup = format!(" for {} in {} {}", &src[ps..pe], &src[as_..ae], strip_comments_one_line(&src[bs..be]));
+        out.insert_str(be, &dup);
+        out.replace_range(re..me, "");
+    }
+    out
+}
+
 fn main() {
+    if std::env::args().nth(1).as_deref() == Some("--pre") {
+        let path = std::env::args().nth(2).expect("usage: vx-extract --pre <file.rs>");
+        let src = std::fs::read_to_string(&path).expect("read");
+        print!("{}", prepass(&src));
+        return;
+    }
     let path = std::env::args().nth(1).expect("usage: vx-extract <file.rs>");
     let src = std::fs::read_to_string(&path).expect("read");
     let file = match syn::parse_file(&src) {
